@@ -72,7 +72,8 @@ def one(name):
     try:
         e = idx[name]
         out = {"expected": e["expected"], "checks": {}, "lines": []}
-        out["suite"] = "skipped" if a.no_suite else suite(slot, e["patch"])
+        prev = res.get(name, {}).get("suite", "skipped")
+        out["suite"] = (prev if prev != "skipped" else "skipped") if a.no_suite else suite(slot, e["patch"])
         r = subprocess.run([V + "/tools/try_mutant.sh", e["patch"], a.tier] + e["expected"], capture_output=True, text=True,
                            env=dict(os.environ, MUT_SLOT=str(slot)))
         for line in r.stdout.splitlines():
